@@ -8,6 +8,7 @@ CONSTANTS
   KwShapes = {"40", "3x40"}
   KwDC = {"ties", "nan"}
   AliasCombos <- CombosQuick
+  UCs = {"B1", "D1", "BR", "DR"}
   AllClsDC = {"nan"}
 INIT Init
 NEXT Next
